@@ -3,6 +3,7 @@ package checks
 import (
 	"fmt"
 	"math"
+	"strconv"
 	"strings"
 
 	"pgregory.net/rapid"
@@ -29,6 +30,7 @@ type C05Case struct {
 	Offset   int               `json:"offset,omitempty"`
 	Spelling string            `json:"spelling,omitempty"` // "limit" | "limit-offset" | "comma"
 	Distinct bool              `json:"distinct,omitempty"`
+	Big      *BigKey           `json:"big,omitempty"`      // one key column handed over as native integers far beyond 2^53 (order-isomorphic to the small values in doc)
 	GoTypes  map[string]string `json:"go_types,omitempty"` // numeric columns handed over as native Go values of that type // SELECT DISTINCT: the window applies to the de-duplicated sequence
 }
 
@@ -100,6 +102,27 @@ func genC05(t *rapid.T) any {
 	}
 	c.Distinct = rapid.IntRange(0, 3).Draw(t, "distinct") == 0
 	c.GoTypes = genGoTypes(t, tb.Cols, "gotypes")
+	if c.Where == nil && len(c.Keys) > 0 && rapid.IntRange(0, 4).Draw(t, "big") == 0 {
+		// integers that float64 cannot tell apart: the engine receives base+v for the column's small
+		// values v, the reference keeps working on v (same order, same equalities)
+		for _, k := range c.Keys {
+			col := tb.Col(k.Col)
+			small := col != nil && col.Kind == "int"
+			if small {
+				for _, v := range col.Pool {
+					if f, ok := v.(float64); !ok || math.Abs(f) > 1000 {
+						small = false
+					}
+				}
+			}
+			if small {
+				b := rapid.SampledFrom(bigBases).Draw(t, "bigbase")
+				c.Big = &BigKey{Col: k.Col, Type: b.Type, Base: b.Base}
+				delete(c.GoTypes, k.Col)
+				break
+			}
+		}
+	}
 	if rapid.IntRange(0, 3).Draw(t, "haslimit") != 0 {
 		c.HasLimit = true
 		n := len(tb.Rows)
@@ -224,9 +247,12 @@ func checkC05(c *C05Case) Result {
 	if c.HasLimit {
 		res.Labels = append(res.Labels, "spelling:"+c.Spelling)
 	}
+	if c.Big != nil {
+		res.Labels = append(res.Labels, "key-beyond-2^53:"+c.Big.Type)
+	}
 	res.Labels = dedup(res.Labels)
 
-	u := c.Env.Exec(typedDoc(c.Doc, map[string]map[string]string{"t": c.GoTypes}), c.sql(false, false))
+	u := c.exec(c.sql(false, false))
 	res.Execs++
 	if !u.OK() || diffRows(u.Rows, wantU) != "" {
 		res.Violation = fmt.Sprintf("unordered result wrong: %s\n  expected %s\n  got %s", c.sql(false, false), val.JSON(wantU), u.Describe())
@@ -235,7 +261,7 @@ func checkC05(c *C05Case) Result {
 	s := u
 	outOfOrder := false
 	if len(c.Keys) > 0 {
-		s = c.Env.Exec(typedDoc(c.Doc, map[string]map[string]string{"t": c.GoTypes}), c.sql(true, false))
+		s = c.exec(c.sql(true, false))
 		res.Execs++
 		if !s.OK() {
 			res.Violation = fmt.Sprintf("%s\n  got %s", c.sql(true, false), s.Describe())
@@ -279,7 +305,7 @@ func checkC05(c *C05Case) Result {
 	}
 	straddle := false
 	if c.HasLimit {
-		l := c.Env.Exec(typedDoc(c.Doc, map[string]map[string]string{"t": c.GoTypes}), c.sql(true, true))
+		l := c.exec(c.sql(true, true))
 		res.Execs++
 		if !l.OK() {
 			res.Violation = fmt.Sprintf("%s (over %d rows)\n  got %s", c.sql(true, true), len(s.Rows), l.Describe())
@@ -331,4 +357,100 @@ func checkC05(c *C05Case) Result {
 	}
 	res.NonTrivial = (len(c.Keys) > 0 && len(u.Rows) >= 2 && outOfOrder) || straddle
 	return res
+}
+
+// BigKey: column Col reaches the engine as Base+v of Go type Type, v being the small integer held in the case's doc.
+type BigKey struct {
+	Col  string `json:"col"`
+	Type string `json:"type"` // int64 | int | uint64 | uint
+	Base string `json:"base"` // decimal
+}
+
+var bigBases = []BigKey{
+	{Type: "int64", Base: "9007199254740992"}, {Type: "int64", Base: "4611686018427387904"}, {Type: "int64", Base: "-4611686018427387904"},
+	{Type: "int64", Base: "9223372036854770000"}, {Type: "int64", Base: "-9223372036854770000"}, {Type: "int", Base: "9007199254740992"}, {Type: "int", Base: "-9007199254740993"},
+	{Type: "uint64", Base: "9007199254740992"}, {Type: "uint64", Base: "9223372036854775808"}, {Type: "uint64", Base: "18446744073709550000"}, {Type: "uint", Base: "13835058055282163712"},
+}
+
+func (b *BigKey) up(v float64) any {
+	d := int64(v)
+	switch b.Type {
+	case "uint64", "uint":
+		base, _ := strconv.ParseUint(b.Base, 10, 64)
+		x := base + uint64(d) // two's complement: adds negative d correctly
+		if b.Type == "uint" {
+			return uint(x)
+		}
+		return x
+	}
+	base, _ := strconv.ParseInt(b.Base, 10, 64)
+	if b.Type == "int" {
+		return int(base + d)
+	}
+	return base + d
+}
+
+// down maps a value returned by the engine back to the small integer; anything that is not the
+// native type handed in is returned unchanged (and will not match the reference).
+func (b *BigKey) down(x any) any {
+	switch b.Type {
+	case "uint64", "uint":
+		base, _ := strconv.ParseUint(b.Base, 10, 64)
+		var u uint64
+		switch n := x.(type) {
+		case uint64:
+			u = n
+		case uint:
+			u = uint64(n)
+		default:
+			return x
+		}
+		return float64(int64(u - base))
+	}
+	base, _ := strconv.ParseInt(b.Base, 10, 64)
+	switch n := x.(type) {
+	case int64:
+		return float64(n - base)
+	case int:
+		return float64(int64(n) - base)
+	}
+	return x
+}
+
+// exec runs one statement of the case on a fresh typed copy of the document.
+func (c *C05Case) exec(sql string) Out {
+	doc := typedDoc(c.Doc, map[string]map[string]string{"t": c.GoTypes})
+	if c.Big == nil {
+		return c.Env.Exec(doc, sql)
+	}
+	rows, _ := doc["t"].([]any)
+	for _, r := range rows {
+		if m, ok := r.(map[string]any); ok {
+			if f, ok := m[c.Big.Col].(float64); ok {
+				m[c.Big.Col] = c.Big.up(f)
+			}
+		}
+	}
+	out := c.Env.Exec(doc, sql)
+	if !out.OK() {
+		return out
+	}
+	back := make([]any, len(out.Raw))
+	for i, r := range out.Raw {
+		m, ok := r.(map[string]any)
+		if !ok {
+			back[i] = r
+			continue
+		}
+		cp := make(map[string]any, len(m))
+		for k, v := range m {
+			if k == c.Big.Col && v != nil {
+				v = c.Big.down(v)
+			}
+			cp[k] = v
+		}
+		back[i] = cp
+	}
+	out.Rows = val.NormRows(back)
+	return out
 }
